@@ -1772,6 +1772,11 @@ func resolveIndex(v, index reflect.Value, indexAsStr string) (reflect.Value, err
 			return reflect.Value{}, fmt.Errorf("can't use %s (unhashable type %s) as key for map of type %s", indexAsStr, indexVal.Type(), v.Type())
 		}
 		index = indexVal.Convert(v.Type().Key()) // noop in most cases, but not expensive
+		if v.Type().Key().Kind() == reflect.Interface {
+			// a key that is comparable by its static type can still hold an unhashable
+			// dynamic value (struct{ ID interface{} }{ID: []int{1}}): MapIndex panics then
+			return mapIndexInterfaceKey(v, index)
+		}
 		return indirectEface(v.MapIndex(index)), nil
 	case reflect.Ptr:
 		etyp := v.Type().Elem()
@@ -1787,6 +1792,17 @@ func resolveIndex(v, index reflect.Value, indexAsStr string) (reflect.Value, err
 		}
 	}
 	return reflect.Value{}, fmt.Errorf("can't evaluate index %s (%s) in type %s", index, indexAsStr, getTypeString(v))
+}
+
+// mapIndexInterfaceKey looks key up in a map whose key type is an interface type and
+// reports the runtime error raised for an unhashable dynamic key as an error.
+func mapIndexInterfaceKey(m, key reflect.Value) (val reflect.Value, err error) {
+	defer func() {
+		if r := recover(); r != nil {
+			val, err = reflect.Value{}, fmt.Errorf("can't use %v as key for map of type %s: %v", key, m.Type(), r)
+		}
+	}()
+	return indirectEface(m.MapIndex(key)), nil
 }
 
 // from Go's text/template's funcs.go:
